@@ -88,6 +88,9 @@ impl Point {
     }
 
     pub(crate) fn from_byte(b: &[u8]) -> Sm2Result<Point> {
+        if b.is_empty() {
+            return Err(Sm2Error::InvalidPublic);
+        }
         let flag = b[0];
         // Compressed Point
         if flag == 0x02 || flag == 0x03 {
@@ -120,7 +123,7 @@ impl Point {
         }
         // uncompressed Point
         else {
-            if b.len() != 65 {
+            if flag != 0x04 || b.len() != 65 {
                 return Err(Sm2Error::InvalidPublic);
             }
             let x = fp_to_mont(&u256_from_be_bytes(&b[1..33]));
